@@ -285,6 +285,13 @@ CopyStillValidates(o, cx, ev, res, o2, cx2) ==
                 LET g == o2.models[m].files[j] IN
                 (g <= Len(o.f) /\ "ser" \in DOMAIN o.f[g] /\ "ser" \in DOMAIN o2.f[g]) =>
                    (PSeqToSet(o2.f[g].ser.warnk) \cap VersionKinds) \subseteq (PSeqToSet(o.f[g].ser.warnk) \cap VersionKinds)
+\* C07 (b): no successful editing call makes the lenient reload of a file complain about anything new except a
+\* required attribute that was never set
+EditsStayValid(o, cx, ev, res, o2, cx2) ==
+  (ev.op \notin {"Load", "reset"} /\ res.t = "ok") =>
+     \A g \in 1..Len(o.f) :
+        (g <= Len(o2.f) /\ "ser" \in DOMAIN o.f[g] /\ "ser" \in DOMAIN o2.f[g] /\ o.f[g].ser.t = "ok" /\ o2.f[g].ser.t = "ok") =>
+           (PSeqToSet(o2.f[g].ser.warnk) \ PSeqToSet(o.f[g].ser.warnk)) \subseteq {"RequiredAttributeMissing"}
 TreeFields(o, i) == [k |-> o.n[i].k, par |-> o.n[i].par, cont |-> o.n[i].cont, at |-> o.n[i].at, cmt |-> o.n[i].cmt, fm |-> o.n[i].fm]
 CopySourceUnchanged(o, cx, ev, res, o2, cx2) ==
   (ev.op = "Copy" /\ res.t = "ok") => \A i \in 1..Len(o.n) : i # ev.p => TreeFields(o2, i) = TreeFields(o, i)
@@ -329,7 +336,7 @@ ActionPropsCx(o, cx, ev, res, o2, cx2) ==
    RefsFollow |-> RefsFollow(o, cx, ev, res, o2, cx2),
    RemoveFileExact |-> RemoveFileExact(o, cx, ev, res, o2, cx2),
    CopyFaithful |-> CopyFaithful(o, cx, ev, res, o2, cx2), CopyStillValidates |-> CopyStillValidates(o, cx, ev, res, o2, cx2),
-   CopySourceUnchanged |-> CopySourceUnchanged(o, cx, ev, res, o2, cx2),
+   CopySourceUnchanged |-> CopySourceUnchanged(o, cx, ev, res, o2, cx2), EditsStayValid |-> EditsStayValid(o, cx, ev, res, o2, cx2),
    ModelsIndependent |-> ModelsIndependent(o, cx, ev, res, o2, cx2), DuplicateSameText |-> DuplicateSameText(o, cx, ev, res, o2, cx2)]
 ActionProps(o, ev, res, o2) == ActionPropsCx(o, Ctx(o), ev, res, o2, Ctx(o2))
 PropertyOf(p) ==
@@ -340,5 +347,6 @@ PropertyOf(p) ==
     [] p \in {"MembershipWithinParent", "MembershipWithinModel", "EveryElementWritten", "FileTextExact", "RemoveFileExact"} -> "C10"
     [] p = "FailedNoEffect" -> "C11"
     [] p = "NoPanicNoHangNoSpuriousLock" -> "C12"
+    [] p = "EditsStayValid" -> "C07"
     [] OTHER -> "C13"
 =============================================================================
